@@ -404,10 +404,61 @@ def _records_in(fn, field_sets):
     return done
 
 
+_PROTOCOL = {'__getitem__': '_item_at', '__len__': '_length', '__contains__': '_holds'}
+
+
+def _protocol_methods_as_calls(tree):
+    """obj[k] / len(obj) / x in obj on a local made by a small class of the module that defines __getitem__ / __len__ /
+    __contains__ read as calls of ordinary methods (obj._item_at(k) ..), so that the class can be read as the locals it
+    groups like any other; only for variables assigned exactly once from the class's constructor"""
+    classes = {c.name: c for c in tree.body if isinstance(c, ast.ClassDef) and any(isinstance(m, ast.FunctionDef) and m.name in _PROTOCOL for m in c.body)}
+    if not classes:
+        return
+    for cname, cls in classes.items():
+        owners = []
+        for fn in [n for n in ast.walk(tree) if isinstance(n, FUNCS) and not isinstance(getattr(n, '_ofparent', None), ast.ClassDef)]:
+            for blk, i, st in _own_statements(fn):
+                if isinstance(st, ast.Assign) and len(st.targets) == 1 and isinstance(st.targets[0], ast.Name) and isinstance(st.value, ast.Call) \
+                        and isinstance(st.value.func, ast.Name) and st.value.func.id == cname and len(_stores_in(fn, st.targets[0].id)) == 1:
+                    owners.append((fn, st.targets[0].id))
+        if not owners:
+            continue
+        have = {m.name for m in cls.body if isinstance(m, ast.FunctionDef)}
+        if any(_PROTOCOL[d] in have for d in _PROTOCOL if d in have):
+            continue
+        for fn, v in owners:
+            class _R(ast.NodeTransformer):
+                def visit_Subscript(self_, n):
+                    self_.generic_visit(n)
+                    if '__getitem__' in have and isinstance(n.ctx, ast.Load) and isinstance(n.value, ast.Name) and n.value.id == v:
+                        return ast.copy_location(ast.Call(func=ast.Attribute(value=n.value, attr=_PROTOCOL['__getitem__'], ctx=ast.Load()), args=[n.slice], keywords=[]), n)
+                    return n
+
+                def visit_Call(self_, n):
+                    self_.generic_visit(n)
+                    if '__len__' in have and isinstance(n.func, ast.Name) and n.func.id == 'len' and len(n.args) == 1 and isinstance(n.args[0], ast.Name) and n.args[0].id == v:
+                        return ast.copy_location(ast.Call(func=ast.Attribute(value=n.args[0], attr=_PROTOCOL['__len__'], ctx=ast.Load()), args=[], keywords=[]), n)
+                    return n
+
+                def visit_Compare(self_, n):
+                    self_.generic_visit(n)
+                    if '__contains__' in have and len(n.ops) == 1 and isinstance(n.ops[0], (ast.In, ast.NotIn)) and isinstance(n.comparators[0], ast.Name) and n.comparators[0].id == v:
+                        c = ast.Call(func=ast.Attribute(value=n.comparators[0], attr=_PROTOCOL['__contains__'], ctx=ast.Load()), args=[n.left], keywords=[])
+                        return ast.copy_location(c if isinstance(n.ops[0], ast.In) else ast.UnaryOp(op=ast.Not(), operand=c), n)
+                    return n
+            _R().visit(fn)
+            ast.fix_missing_locations(fn)
+        for m in cls.body:
+            if isinstance(m, ast.FunctionDef) and m.name in _PROTOCOL:
+                m.name = _PROTOCOL[m.name]
+    _link(tree)
+
+
 def flatten(tree):
     """rewrite in place; -> list of (class name, function name, variable) that were flattened"""
     done = []
     _link(tree)
+    _protocol_methods_as_calls(tree)
     merge_dispatch(tree)
     _link(tree)
     field_sets = []
